@@ -40,6 +40,10 @@ CONSTANTS = {
         # --- LevelInfoBuilder::write_leaf bulk-fill gate
         ("BULK_FILL_MIN_LEN", "parquet/src/arrow/arrow_writer/levels.rs", r"const\s+BULK_FILL_MIN_LEN\s*:\s*usize\s*=\s*(\d+)\s*;", "int"),
         ("BULK_FILL_NULL_FACTOR", "parquet/src/arrow/arrow_writer/levels.rs", r"len\s*>=\s*BULK_FILL_MIN_LEN\s*&&\s*nulls\.null_count\(\)\s*\*\s*(\d+)\s*>=\s*nulls\.len\(\)", "int"),
+        # presence of the `+ range.start` rebase of non_null_indices in both write_leaf paths
+        # (empty capture group: the item is "lost" when the expression is no longer in the source)
+        ("LEAF_BULK_REBASE", "parquet/src/arrow/arrow_writer/levels.rs", r"\.extend\(range_nulls\.valid_indices\(\)\.map\(\|i\|\s*i\s*\+\s*range\.start\)\)()", "intlist"),
+        ("LEAF_ITER_REBASE", "parquet/src/arrow/arrow_writer/levels.rs", r"BitIndexIterator::new\(bits\.inner\(\),\s*bits\.offset\(\)\s*\+\s*range\.start,\s*len\)\s*\.map\(\|i\|\s*i\s*\+\s*range\.start\)()", "intlist"),
     ],
 }
 FUNCTIONS = {}
